@@ -317,6 +317,55 @@ func init() {
 					}
 				}
 				if alloc == nil {
+					// the object comes from a maker (every return of which is a fresh object of the type), the options are
+					// applied to it by a method that is handed the whole list, and it is returned:
+					// `p := newProfile(…); p.configure(opts); return p`
+					opts := f.Params[len(f.Params)-1]
+					for _, b := range f.Blocks {
+						for _, ins := range b.Instrs {
+							mk, ok := ins.(*ssa.Call)
+							if !ok || namedOf(mk.Type()) != allocType {
+								continue
+							}
+							if m := mk.Common().StaticCallee(); m == nil || !returnsFreshOnly(m, 0) {
+								continue
+							}
+							if !returned(f, mk) {
+								continue
+							}
+							for _, r := range *mk.Referrers() {
+								call, ok := r.(*ssa.Call)
+								if !ok || call == mk {
+									continue
+								}
+								h := call.Common().StaticCallee()
+								if h == nil || !c.P.InModule(h) || len(h.Blocks) == 0 || len(call.Common().Args) == 0 || call.Common().Args[0] != ssa.Value(mk) {
+									continue
+								}
+								var hp *ssa.Parameter
+								for i, a := range call.Common().Args {
+									if a == ssa.Value(opts) && i < len(h.Params) {
+										hp = h.Params[i]
+									}
+								}
+								if hp == nil {
+									continue
+								}
+								ht, _, hwhy := applyLoop(h, hp, method, allowAssert)
+								if ht == nil {
+									return false, hwhy
+								}
+								if ht != ssa.Value(h.Params[0]) {
+									return false, "the method " + h.Name() + " applies the options to something other than its receiver"
+								}
+								// the call is unconditional
+								if len(Facts(c, f).At(call.Block())) > 0 {
+									return false, "the options are applied only under a condition"
+								}
+								return true, ""
+							}
+						}
+					}
 					return false, "does not allocate a fresh " + allocType
 				}
 				if !returned(f, alloc) {
@@ -424,6 +473,25 @@ func init() {
 										if st, ok := r.(*ssa.Store); ok {
 											if _, ok := fieldAddrOf(st.Addr, "profile:Parser"); ok {
 												fwd = true
+											}
+										}
+										// … or handed to the maker of the profile, which stores its parameter there
+										if mk, ok := r.(*ssa.Call); ok && namedOf(mk.Type()) == "profile" {
+											if m := mk.Common().StaticCallee(); m != nil && returnsFreshOnly(m, 0) {
+												for ai, a := range mk.Common().Args {
+													if a != ssa.Value(call) || ai >= len(m.Params) {
+														continue
+													}
+													for _, mb := range m.Blocks {
+														for _, mi := range mb.Instrs {
+															if st, ok := mi.(*ssa.Store); ok && st.Val == ssa.Value(m.Params[ai]) {
+																if _, ok := fieldAddrOf(st.Addr, "profile:Parser"); ok {
+																	fwd = true
+																}
+															}
+														}
+													}
+												}
 											}
 										}
 									}
